@@ -94,6 +94,14 @@ func fillMid(g *gen) reflect.Value {
 	return v
 }
 
+// typed paths and navigational contexts whose product is walked by the typed streams (no functions other than
+// length: the typed model covers navigation, comparators and length)
+var typedInner = []string{"@", "Title", "Count", "Kids", "PKids", "Leaf", "NilLeaf", "Nums", "Lists", "Strs", "Inner", "Empty", "PLeafs", "Kids[0]", "PKids[0]", "Kids[0].Leafs", "Kids[0].Tags", "Inner.Leaf",
+	"Inner.Tags", "Inner.Inner", "Leaf.Name", "NilLeaf.Name", "Lists[0]", "PLeafs[0]", "Kids[*].Leaf", "Kids[*].Tags", "PKids[*].Leafs", "Nums[1:]", "Kids[?Id > `1`]", "Kids[].Leafs[]", "Missing", "Kids[9]"}
+var typedOuter = []string{"%s", "%s[0]", "%s[-1]", "%s[1:]", "%s[::-1]", "%s[*]", "%s[]", "%s[?@]", "%s[*].Name", "%s[*].Label", "%s[?Ok]", "%s[?Name == 'a']", "%s.Name", "%s.Leaf", "%s.Tags", "%s.Leafs[0].Name",
+	"%s[*].Tags[0]", "%s[*].Leafs[*].Name", "%s[].Name", "!%s", "%s || Title", "%s && Count", "[%s, Title]", "{a: %s}", "%s | [0]", "%s | @", "%s == `null`", "%s == %s", "length(%s[*])", "length(%s[])", "length(%s[1:])", "%s[*].[Name, Ok]",
+	"%s[0][0]", "%s[?@ > `1`]", "%s[-1:].Name", "%s[?Leaf].Label", "%s[?!Leaf].Id", "[%s][0]", "[%s][]"}
+
 type typedExpr struct {
 	typed, generic string
 	nav            bool
@@ -279,6 +287,12 @@ func typedCase(seed uint64, idx int) (g *gen, doc interface{}, generic interface
 			"PKids[2::9223372036854775807]", "Lists[*][1::9223372036854775807]", "Nums[-9223372036854775808:9223372036854775807:9223372036854775807]", "Kids[:-9223372036854775808:-1].Id",
 			"Nums[9223372036854775807]", "Nums[-9223372036854775808]", "Kids[-9223372036854775808].Label",
 			"\"\"", "Inner.\"\"", "Kids[*].\"\"", "Leaf.\"\"", "\"\" || Title", "{a: \"\", b: Title}", "\" \"", "Inner.\"\\u0000\"", "\"title \"", "Kids[0].\"\".Name"})
+		exprs = append(exprs, typedExpr{typed: e, generic: e, nav: true})
+	}
+	// six members of the product (context × typed path) per case, walking the whole product as idx grows
+	for i := 0; i < 6; i++ {
+		k := (idx*6 + i) % (len(typedOuter) * len(typedInner))
+		e := strings.Replace(typedOuter[k/len(typedInner)], "%s", typedInner[k%len(typedInner)], -1)
 		exprs = append(exprs, typedExpr{typed: e, generic: e, nav: true})
 	}
 	ne := 3 + g.r.intn(4)
